@@ -50,6 +50,10 @@ ASSUMPTIONS = [
     'planes of one object lie at pairwise different distances along the normal (coincident planes are refused by the '
     'constructor: theorem coincident_planes_refused; not drawn for segmentations, drawn for images as duplicate_position)',
     'thin slices are dyadic (1/16, 1/64, 1/1024) so that positions stay exact decimals of at most 16 characters',
+    'caller-owned buffers (round 5): every affine / position / orientation / spacing array is overwritten in place right after '
+    'the call that received it, pixel arrays once the segmentation exists; a Volume shares its pixel array with the caller by '
+    'design (checked on the clean tree: vol.array is the array passed), so the pixel buffer of a Volume is not overwritten '
+    'between hd.Volume(...) and Segmentation(...); buffers with a non-default memory layout (views, read-only) are not overwritten',
 ]
 MODELLED_NOT_VERIFIED = ['numpy linear algebra (cross, dot, argsort, unique incl. return_index / axis=0, round)',
                          'compute_tile_positions_per_frame (tile grid order and arithmetic: pinned by C10 / C12, here compared per tile)', 'pydicom DS formatting',
@@ -339,6 +343,41 @@ def relayout(arr, how):
     raise ValueError(how)
 
 
+class CallerBuffers:
+    """Guide 3a / round 5: the caller's own work buffers.  Every array or matrix the generator hands to the library (affine,
+    position / orientation / spacing arrays, pixel arrays) is `give`n through this registry as a fresh writable float64 / integer
+    ndarray; `scribble()` then overwrites the registered buffers IN PLACE with other plausible values (a re-used work buffer), after
+    the call that received them and before the next use of what was built from them.  Expectations are always computed from the
+    generator's own exact values, i.e. from a snapshot taken at call time.  `late` buffers are only scribbled once the object
+    under test exists (a Volume shares its pixel array with the caller by design: run on the clean tree, see ASSUMPTIONS)."""
+
+    def __init__(self, active):
+        self.active, self.items, self.count = active, [], 0
+
+    def give(self, arr, late=False, dtype=None):
+        if not self.active:
+            return arr
+        a = np.array(arr, dtype=dtype) if dtype is not None else np.array(arr)
+        self.items.append((a, late))
+        return a
+
+    def scribble(self, late=False):
+        if not self.active:
+            return
+        for a, is_late in self.items:
+            if (is_late and not late) or not a.flags.writeable:
+                continue
+            if a.dtype.kind == 'f':
+                a[...] = a * -3.0 + 17.0
+            else:
+                a[...] = (a == 0)
+            self.count += 1
+
+
+def draw_buffers(ctx, stream, idx):
+    return CallerBuffers(ctx.rng(stream + 'buffers', idx).random() < 0.5)
+
+
 def spell_type(r, seg_type):
     """String or enum member."""
     import highdicom as hd
@@ -409,7 +448,7 @@ def repeated_reads(ctx, descr, obj, get_volume, kw, first, r, site):
     """Several calls on ONE object: the same read again, after a refused call, after the cached pixel array was
     populated, after a read with other options; nothing may change and the object must stay untouched."""
     snap = _snapshot(obj)
-    steps = ['again', 'after-refused', 'after-pixel_array', 'after-other-options']
+    steps = ['again', 'after-refused', 'after-pixel_array', 'after-other-options', 'after-result-overwritten']
     r.shuffle(steps)
     for step in steps:
         if step == 'after-refused':
@@ -417,6 +456,20 @@ def repeated_reads(ctx, descr, obj, get_volume, kw, first, r, site):
             _fetch(get_volume, row_start=10 ** 6, **kw)
         elif step == 'after-pixel_array':
             _fetch(lambda: obj.pixel_array)
+        elif step == 'after-result-overwritten':
+            # what a read returned belongs to the caller: overwriting it (array, affine, the reported geometry's affine) must
+            # not reach into the object
+            st0, x = _fetch(get_volume, **kw)
+            if st0 == 'ok':
+                for getter in (lambda: x.array, lambda: x.affine):
+                    stb, b_ = _fetch(getter)
+                    if stb == 'ok' and isinstance(b_, np.ndarray) and b_.flags.writeable:
+                        b_[...] = 7
+            stg0, g0 = _fetch(lambda: obj.get_volume_geometry())
+            if stg0 == 'ok' and g0 is not None:
+                ga_ = g0.affine
+                if ga_.flags.writeable:
+                    ga_[...] = 0
         elif step == 'after-other-options':
             _fetch(get_volume, slice_start=0, as_indices=True, row_end=-1 if first.spatial_shape[1] > 1 else None, **kw)
             if 'combine_segments' in kw:
@@ -638,23 +691,28 @@ def build_vol_case(ctx, idx):
     mem = rv.choice(LAYOUTS)
     passed = relayout(arr, mem)
     cs = rv.choice(['PATIENT', hd.CoordinateSystemNames.PATIENT])
-    vol = hd.Volume(passed, a, coordinate_system=cs, frame_of_reference_uid=src[0].FrameOfReferenceUID, channels=chan)
+    bufs = draw_buffers(ctx, 'vol', idx)
+    passed = bufs.give(passed, late=True) if bufs.active and mem == 'C' else passed
+    vol = hd.Volume(passed, bufs.give(a, dtype=np.float64), coordinate_system=cs, frame_of_reference_uid=src[0].FrameOfReferenceUID,
+                    channels=chan)
     typ, typ_spell = spell_type(rv, seg_type)
     ts, workers = encoding_variant(ctx, 'vol', idx, seg_type, shape[1] * shape[2])
     descr = {'stream': 'vol', 'idx': idx, 'seed': ctx.seed, 'dir': g['label'], 'h': g['h'], 'exact': g['exact'],
              'shape': list(shape), 'spacing': [rstr(x) for x in g['s']], 'position': [rstr(x) for x in g['p']],
              'type': seg_type, 'nseg': nseg, 'layout': layout, 'omit': omit, 'empties': mode,
              'empty_planes': sorted(empties), 'memory': mem, 'type_spelling': typ_spell, 'transfer_syntax': ts,
-             'workers': workers}
+             'workers': workers, 'caller_mutates': bufs.active}
 
     def mk():
         import warnings
+        bufs.scribble()                                 # the affine buffer is re-used after the Volume was built
         with warnings.catch_warnings():
             warnings.simplefilter('ignore')             # workers with a native syntax: documented warning, no effect
             seg = hd.seg.Segmentation(src, vol, typ, [seg_description(i + 1) for i in range(nseg)], omit_empty_frames=omit,
                                       **encoding_kw(ts, workers), **_seg_kw())
         if not np.array_equal(passed, arr):
             raise AssertionError('the constructor modified the array of the volume it was given')
+        bufs.scribble(late=True)                        # ... and the pixel buffer once the segmentation exists
         return seg
     return descr, g, arr, mk
 
@@ -955,7 +1013,7 @@ def check_vol_case(ctx, descr, g, arr, mk, reqs, pending):
                 with_sbs=descr.get('with_sbs'), parallel_to_source=descr.get('parallel_to_source'),
                 exact=exact, layout=layout, n0=shape[0], memory=descr.get('memory'), type_spelling=descr.get('type_spelling'),
                 transfer_syntax=descr.get('transfer_syntax'), workers=str(descr.get('workers')),
-                square=shape[1] == shape[2], thin_slices=F(descr['spacing'][0]) < F(1, 4))
+                square=shape[1] == shape[2], thin_slices=F(descr['spacing'][0]) < F(1, 4), caller_mutates=descr.get('caller_mutates'))
     if st != 'ok':
         ctx.case(outcome='construct-refused', **hkey)
         ctx.fail(descr, f'admissible volume refused by the constructor: {seg}', site='Segmentation.__init__')
@@ -1117,7 +1175,8 @@ def build_place_case(ctx, idx):
     # source series: axial, same number of planes and frame size (what the constructor may compare with)
     src = ct_series(n0, shape[1], shape[2], slice_spacing=2.5)
     a = affine_of(g)
-    geom = hd.VolumeGeometry(a, shape, 'PATIENT', frame_of_reference_uid=src[0].FrameOfReferenceUID)
+    bufs = draw_buffers(ctx, 'place', idx)
+    geom = hd.VolumeGeometry(bufs.give(a, dtype=np.float64), shape, 'PATIENT', frame_of_reference_uid=src[0].FrameOfReferenceUID)
     n = [g['d'][i][0] for i in range(3)]
     parallel = n[0] == 0 and n[1] == 0
     rv = ctx.rng('placevar', idx)
@@ -1128,16 +1187,30 @@ def build_place_case(ctx, idx):
              'shape': list(shape), 'spacing': [rstr(x) for x in g['s']], 'position': [rstr(x) for x in g['p']],
              'type': seg_type, 'nseg': nseg, 'layout': layout, 'omit': omit, 'empties': mode, 'empty_planes': sorted(empties),
              'memory': mem, 'type_spelling': typ_spell, 'placement': 'explicit', 'with_sbs': with_sbs, 'sbs_sign': sbs_sign,
-             'parallel_to_source': parallel}
+             'parallel_to_source': parallel, 'caller_mutates': bufs.active}
 
     def mk():
-        pm = hd.PixelMeasuresSequence(pixel_spacing=geom.pixel_spacing, slice_thickness=geom.spacing_between_slices,
+        bufs.scribble()                                 # the affine buffer is re-used after the geometry was built
+        ps_buf = bufs.give(list(geom.pixel_spacing), dtype=np.float64)
+        pm = hd.PixelMeasuresSequence(pixel_spacing=ps_buf, slice_thickness=geom.spacing_between_slices,
                                       spacing_between_slices=sbs_sign * geom.spacing_between_slices if with_sbs else None)
-        seg = hd.seg.Segmentation(src, passed, typ, [seg_description(i + 1) for i in range(nseg)], omit_empty_frames=omit,
-                                  plane_positions=geom.get_plane_positions(), plane_orientation=geom.get_plane_orientation(),
-                                  pixel_measures=pm, **_seg_kw())
-        if not np.array_equal(passed, arr):
+        if bufs.active:
+            # positions and orientation handed over as the caller's own arrays, overwritten once the items exist
+            pos_bufs = [bufs.give(list(p_[0].ImagePositionPatient), dtype=np.float64) for p_ in geom.get_plane_positions()]
+            pps = [hd.PlanePositionSequence('PATIENT', image_position=b_) for b_ in pos_bufs]
+            ori_buf = bufs.give(list(geom.get_plane_orientation()[0].ImageOrientationPatient), dtype=np.float64)
+            po = hd.PlaneOrientationSequence('PATIENT', ori_buf)
+        else:
+            pps, po = geom.get_plane_positions(), geom.get_plane_orientation()
+        bufs.scribble()
+        px_buf = passed
+        if bufs.active and passed.flags.writeable and mem == 'C':
+            px_buf = bufs.give(passed, late=True)
+        seg = hd.seg.Segmentation(src, px_buf, typ, [seg_description(i + 1) for i in range(nseg)], omit_empty_frames=omit,
+                                  plane_positions=pps, plane_orientation=po, pixel_measures=pm, **_seg_kw())
+        if not np.array_equal(px_buf, arr):
             raise AssertionError('the constructor modified the pixel array it was given')
+        bufs.scribble(late=True)
         return seg
     return descr, g, arr, mk
 
@@ -1211,16 +1284,19 @@ def build_src_case(ctx, idx):
     descr.update(memory=mem, type_spelling=typ_spell)
 
     ts, workers = encoding_variant(ctx, 'src', idx, seg_type, rows * cols)
-    descr.update(transfer_syntax=ts, workers=workers)
+    bufs = draw_buffers(ctx, 'src', idx)
+    descr.update(transfer_syntax=ts, workers=workers, caller_mutates=bufs.active)
 
     def mk():
         import warnings
+        px_buf = bufs.give(passed, late=True) if (bufs.active and mem == 'C') else passed
         with warnings.catch_warnings():
             warnings.simplefilter('ignore')             # workers with a native syntax: documented warning, no effect
-            seg = hd.seg.Segmentation(src, passed, typ, [seg_description(i + 1) for i in range(nseg)], omit_empty_frames=omit,
+            seg = hd.seg.Segmentation(src, px_buf, typ, [seg_description(i + 1) for i in range(nseg)], omit_empty_frames=omit,
                                       **encoding_kw(ts, workers), **_seg_kw())
-        if not np.array_equal(passed, arr):
+        if not np.array_equal(px_buf, arr):
             raise AssertionError('the constructor modified the pixel array it was given')
+        bufs.scribble(late=True)                        # the pixel buffer is re-used once the segmentation exists
         return seg
     return descr, (rowcos, colcos, ps, positions), arr, mk, src
 
@@ -1239,7 +1315,7 @@ def check_src_case(ctx, descr, geo, arr, mk, src, reqs, pending):
                 n0=descr['n'], order=descr['order_mode'], source=descr['kind'], gaps=descr.get('gaps', False),
                 memory=descr.get('memory'), type_spelling=descr.get('type_spelling'), square=descr['rows'] == descr['cols'],
                 thin_slices=abs(F(descr['slice_spacing'])) < F(1, 4), transfer_syntax=descr.get('transfer_syntax'),
-                workers=str(descr.get('workers')))
+                workers=str(descr.get('workers')), caller_mutates=descr.get('caller_mutates'))
     st, seg = _fetch(mk)
     if st != 'ok':
         ctx.case(outcome='construct-refused', **hkey)
@@ -1636,11 +1712,15 @@ def build_tiled_case(ctx, idx):
                  remainder=[total_r % tr, total_c % tc])
     kw = dict(tile_pixel_array=True, tile_size=tile_size, omit_empty_frames=omit, dimension_organization_type=dot)
     passed = relayout(mask, mem)
+    bufs = draw_buffers(ctx, 'tiled', idx)
+    descr['caller_mutates'] = bufs.active
+    if bufs.active and mem == 'C':
+        passed = bufs.give(passed, late=True)
     if from_volume:
         g = rand_geom(r, 0.1)
         descr.update(dir=g['label'], h=g['h'], exact=g['exact'], spacing=[rstr(x) for x in g['s']], position=[rstr(x) for x in g['p']],
                      directions=[[rstr(x) for x in _col(g['d'], j)] for j in range(3)])
-        vol = hd.Volume(passed, affine_of(g), coordinate_system=rv.choice(['SLIDE', hd.CoordinateSystemNames.SLIDE]),
+        vol = hd.Volume(passed, bufs.give(affine_of(g), dtype=np.float64), coordinate_system=rv.choice(['SLIDE', hd.CoordinateSystemNames.SLIDE]),
                         frame_of_reference_uid=src.FrameOfReferenceUID)
         a = frac_affine(affine_of(g))
         geo = (_col(g['d'], 2), _col(g['d'], 1), (g['s'][1], g['s'][2]), [(apply_aff(a, (0, 0, 0)), mask[0].astype(np.int64))])
@@ -1651,9 +1731,11 @@ def build_tiled_case(ctx, idx):
         mk0 = lambda: hd.seg.Segmentation([src], passed, seg_type_sp, [seg_description(i + 1) for i in range(nseg)], **kw, **_seg_kw())  # noqa: E731
 
     def mk():
+        bufs.scribble()                                 # the affine buffer is re-used after the Volume was built
         seg = mk0()
         if not np.array_equal(passed, mask):
             raise AssertionError('the constructor modified the mask it was given')
+        bufs.scribble(late=True)
         return seg
     return descr, geo, mask, mk
 
@@ -1671,7 +1753,7 @@ def check_tiled_case(ctx, descr, geo, mask, mk, reqs, pending):
     hkey = dict(stream=descr['stream'], type=descr['type'], from_volume=descr['from_volume'], tiled_full=descr['tiled_full'],
                 omit=descr['omit'], exact=exact, placed=descr.get('placed'), origin_delta=descr.get('origin_delta'),
                 same_tile_size=descr.get('same_tile_size'), memory=descr.get('memory'), option_spelling=descr.get('option_spelling'),
-                hand_over=descr.get('hand_over'),
+                hand_over=descr.get('hand_over'), caller_mutates=descr.get('caller_mutates'),
                 tile_square=descr['tile'][0] == descr['tile'][1], remainder=str(descr.get('remainder')))
     st, seg = _fetch(mk)
     if st != 'ok':
@@ -1817,6 +1899,8 @@ def build_tiledpos_case(ctx, idx):
               dimension_organization_type='TILED_FULL' if tiled_full else 'TILED_SPARSE')
     geo = (rowcos, colcos, src_ps, [(origin, mask[0].astype(np.int64))])
     descs = [seg_description(i + 1) for i in range(nseg)]
+    bufs = draw_buffers(ctx, 'tiledpos', idx)
+    descr['caller_mutates'] = bufs.active
     if placed == 'tiles':
         # one frame per tile, each with its own PlanePositionSequence (slide coordinates of the tile's first pixel + its
         # 1-based position in the total pixel matrix); the ORDER of hand-over is free
@@ -1836,26 +1920,42 @@ def build_tiledpos_case(ctx, idx):
             return [origin[i] + r0 * src_ps[0] * colcos[i] + c0 * src_ps[1] * rowcos[i] for i in range(3)]
 
         def mk():
-            pps = [hd.PlanePositionSequence('SLIDE', [float(x) for x in tile_pos(r0, c0)], pixel_matrix_position=(c0 + 1, r0 + 1))
+            pps = [hd.PlanePositionSequence('SLIDE', bufs.give([float(x) for x in tile_pos(r0, c0)], dtype=np.float64),
+                                            pixel_matrix_position=(c0 + 1, r0 + 1))
                    for r0, c0 in tiles]
-            px = np.stack([mask[0, r0:r0 + tr, c0:c0 + tc] for r0, c0 in tiles])
-            po = hd.PlaneOrientationSequence('SLIDE', [float(x) for x in rowcos + colcos])
-            pm = hd.PixelMeasuresSequence(pixel_spacing=[float(x) for x in src_ps], slice_thickness=1.0)
-            return hd.seg.Segmentation([src], px, seg_type, descs, plane_positions=pps, plane_orientation=po, pixel_measures=pm,
-                                       omit_empty_frames=omit, **_seg_kw())
+            px = bufs.give(np.stack([mask[0, r0:r0 + tr, c0:c0 + tc] for r0, c0 in tiles]), late=True)
+            po = hd.PlaneOrientationSequence('SLIDE', bufs.give([float(x) for x in rowcos + colcos], dtype=np.float64))
+            pm = hd.PixelMeasuresSequence(pixel_spacing=bufs.give([float(x) for x in src_ps], dtype=np.float64), slice_thickness=1.0)
+            bufs.scribble()                             # position / orientation / spacing buffers re-used once the items exist
+            seg = hd.seg.Segmentation([src], px, seg_type, descs, plane_positions=pps, plane_orientation=po, pixel_measures=pm,
+                                      omit_empty_frames=omit, **_seg_kw())
+            bufs.scribble(late=True)
+            return seg
     elif placed == 'volume':
-        vol = hd.Volume.from_attributes(array=mask.copy(), image_position=[float(x) for x in origin],
-                                        image_orientation=[float(x) for x in rowcos + colcos],
-                                        pixel_spacing=[float(x) for x in src_ps], spacing_between_slices=1.0,
+        vol = hd.Volume.from_attributes(array=bufs.give(mask.copy(), late=True),
+                                        image_position=bufs.give([float(x) for x in origin], dtype=np.float64),
+                                        image_orientation=bufs.give([float(x) for x in rowcos + colcos], dtype=np.float64),
+                                        pixel_spacing=bufs.give([float(x) for x in src_ps], dtype=np.float64), spacing_between_slices=1.0,
                                         coordinate_system='SLIDE', frame_of_reference_uid=src.FrameOfReferenceUID)
         va = frac_affine(vol.affine)
         # what the volume says about itself (column 0 = right-handed normal, unit spacing) for the storeTiled model
         descr.update(directions=[[rstr(va[i][0]) for i in range(3)], [rstr(x) for x in colcos], [rstr(x) for x in rowcos]],
                      spacing=['1', rstr(src_ps[0]), rstr(src_ps[1])], position=[rstr(x) for x in origin])
-        mk = lambda: hd.seg.Segmentation([src], vol, seg_type, descs, **kw, **_seg_kw())  # noqa: E731
+
+        def mk():
+            bufs.scribble()                             # position / orientation / spacing buffers re-used after from_attributes
+            seg = hd.seg.Segmentation([src], vol, seg_type, descs, **kw, **_seg_kw())
+            bufs.scribble(late=True)
+            return seg
     else:
-        pp = [hd.PlanePositionSequence('SLIDE', [float(x) for x in origin], pixel_matrix_position=(1, 1))]
-        mk = lambda: hd.seg.Segmentation([src], mask.copy(), seg_type, descs, plane_positions=pp, **kw, **_seg_kw())  # noqa: E731
+        pp = [hd.PlanePositionSequence('SLIDE', bufs.give([float(x) for x in origin], dtype=np.float64), pixel_matrix_position=(1, 1))]
+
+        def mk():
+            bufs.scribble()
+            px = bufs.give(mask.copy(), late=True)
+            seg = hd.seg.Segmentation([src], px, seg_type, descs, plane_positions=pp, **kw, **_seg_kw())
+            bufs.scribble(late=True)
+            return seg
     return descr, geo, mask, mk
 
 
